@@ -4,8 +4,10 @@
 //     ensures  idx.len() == n == after.len(), every idx[i] < n, idx pairwise different (a permutation of 0..n),
 //              after[i] == before[idx[i]],  after ascending (after[i] <= after[i+1])
 // the body (insertion sort below 8 elements, median-of-three partitioning with an explicit stack above) is not a Verus unit.
-// Discharged here for every vector of length 1..=4 over ALL non-NaN f64 values (the function only compares and moves),
-// and at length 8 / 9 (the partitioning path, `ir - l >= 7`) for values from the constant set {0.0, 1.0, 2.0} (ties forced).
+// Discharged here for every vector of length 1..=7 (= every length that takes the insertion-sort path only) over ALL
+// non-NaN f64 values (the function only compares and moves).  The partitioning path (`ir - l >= 7`, length >= 8) is
+// exercised by four CONCRETE vectors of length 9 only: with symbolic values (even from a three-valued set, even with a
+// single symbolic element) CBMC's symbolic execution of the nested data-dependent loops does not finish in 20 min.
 use super::*;
 
 fn any_ordered() -> f64 {
@@ -66,6 +68,9 @@ h_argsort_any!(c04_argsort_n1, 1, 8);
 h_argsort_any!(c04_argsort_n2, 2, 8);
 h_argsort_any!(c04_argsort_n3, 3, 8);
 h_argsort_any!(c04_argsort_n4, 4, 8);
+h_argsort_any!(c04_argsort_n5, 5, 8);
+h_argsort_any!(c04_argsort_n6, 6, 8);
+h_argsort_any!(c04_argsort_n7, 7, 9);
 
 macro_rules! h_argsort_set {
     ($name:ident, $n:expr, $unw:expr) => {
